@@ -36,6 +36,23 @@ type c11Cand struct{ In, Out int }
 
 func (l c11Layout) candidates() []c11Cand {
 	var cs []c11Cand
+	// two links that END in a sensor first (not produced by the library's own operators, but a genome
+	// may carry them and the statement has no premise that excludes them): the first neuron into each of
+	// the first two sensors
+	var firstNeuron int
+	for _, t := range l.Nodes {
+		if !isSensorRole(t.Role) {
+			firstNeuron = t.ID
+			break
+		}
+	}
+	k := 0
+	for _, t := range l.Nodes {
+		if isSensorRole(t.Role) && k < 2 {
+			cs = append(cs, c11Cand{firstNeuron, t.ID})
+			k++
+		}
+	}
 	for _, s := range l.Nodes {
 		for _, t := range l.Nodes {
 			if !isSensorRole(t.Role) {
@@ -105,10 +122,11 @@ func (cs c11Case) spec() *GenomeSpec {
 	switch cs.Module {
 	case 1, 2:
 		g.Modules = []ModuleSpec{{Innov: 100, Mut: 1, En: cs.Module == 1, NodeID: 50, Act: 21, Trait: 1, Inputs: []int{sensors[0], neurons[0]}, Outputs: []int{neurons[len(neurons)-1]}, InW: []float64{1, 1}, OutW: []float64{1}}}
-	case 3:
+	case 3, 4, 5, 6:
+		// two modules: both enabled / first disabled / second disabled / both disabled
 		g.Modules = []ModuleSpec{
-			{Innov: 100, Mut: 1, En: true, NodeID: 50, Act: 22, Trait: 0, Inputs: []int{sensors[0], sensors[1]}, Outputs: []int{neurons[0], neurons[len(neurons)-1]}, InW: []float64{1, 1}, OutW: []float64{1, 1}},
-			{Innov: 101, Mut: 2, En: true, NodeID: 51, Act: 23, Trait: 1, Inputs: []int{neurons[0]}, Outputs: []int{neurons[1%len(neurons)]}, InW: []float64{1}, OutW: []float64{1}}}
+			{Innov: 100, Mut: 1, En: cs.Module == 3 || cs.Module == 5, NodeID: 50, Act: 22, Trait: 0, Inputs: []int{sensors[0], sensors[1]}, Outputs: []int{neurons[0], neurons[len(neurons)-1]}, InW: []float64{1, 1}, OutW: []float64{1, 1}},
+			{Innov: 101, Mut: 2, En: cs.Module == 3 || cs.Module == 4, NodeID: 51, Act: 23, Trait: 1, Inputs: []int{neurons[0]}, Outputs: []int{neurons[1%len(neurons)]}, InW: []float64{1}, OutW: []float64{1}}}
 	}
 	return g
 }
@@ -481,9 +499,9 @@ func runC11(c *Ctx) {
 		if c.Quick() && k > 10 {
 			// quick: the first 10 candidate links vary, the remaining stay absent
 			total = pow(3, 10)
-		} else if k > 12 {
-			// thorough: the first 12 candidate links vary (531 441 genomes per layout)
-			total = pow(3, 12)
+		} else if k > 13 {
+			// thorough: the first 13 candidate links vary (1 594 323 genomes per layout)
+			total = pow(3, 13)
 		}
 		desc += fmt.Sprintf("layout %s: %d nodes, %d candidate links, %d genomes; ", l.Name, len(l.Nodes), k, total)
 		for lo := int64(0); lo < total; lo += 2048 {
@@ -499,11 +517,11 @@ func runC11(c *Ctx) {
 			e = 5
 		}
 		jobs = append(jobs, job{c11Case{Layout: li, Pass: 2}, 0, pow(5, e)})
-		for m := 1; m <= 3; m++ {
-			jobs = append(jobs, job{c11Case{Layout: li, Pass: 1, Module: m}, 0, pow(3, 5)})
+		for m := 1; m <= 6; m++ {
+			jobs = append(jobs, job{c11Case{Layout: li, Pass: 1, Module: m}, 0, pow(3, 6)})
 		}
 	}
-	c.Rule = desc + "pass 1: every assignment {absent, enabled, disabled} to every candidate link (every source x every non-sensor target incl. self-loops); pass 2: {absent, plain, recurrent, both in parallel, recurrent + disabled plain} on the first candidates; modular variants (enabled module, disabled module, two modules) over 3^5 link assignments; for each expressed network: nodes, inputs/outputs in genome order (also behaviourally through LoadSensors), link multisets per node, control wiring, counts, and Node/Nodes/From/To/Edge/WeightedEdge/Weight/HasEdgeFromTo/HasEdgeBetween for ALL ordered pairs of ids (incl. absent ids and disabled modules' ids); organism phenotype caching and rebuild. non-trivial = distinct genomes expressed"
+	c.Rule = desc + "pass 1: every assignment {absent, enabled, disabled} to every candidate link (every source x every non-sensor target incl. self-loops); pass 2: {absent, plain, recurrent, both in parallel, recurrent + disabled plain} on the first candidates; modular variants (one module enabled / disabled; two modules in all four enabled/disabled combinations) over 3^6 link assignments; the candidate links include two that end in a sensor; for each expressed network: nodes, inputs/outputs in genome order (also behaviourally through LoadSensors), link multisets per node, control wiring, counts, and Node/Nodes/From/To/Edge/WeightedEdge/Weight/HasEdgeFromTo/HasEdgeBetween for ALL ordered pairs of ids (incl. absent ids and disabled modules' ids); organism phenotype caching and rebuild. non-trivial = distinct genomes expressed"
 	parFor(len(jobs), func(ji int) {
 		j := jobs[ji]
 		if c.Expired() {
